@@ -51,36 +51,35 @@ theorem publicPairToSec_shape {x y : Int} {c : Bool} {sec : Bytes} (h : publicPa
     isCompressedOrUncompressedPubKey sec = true ∧ (c = true → isCompressedPubKey sec = true) ∧
     (sec.length = 33 ∨ sec.length = 65) := by
   unfold publicPairToSec at h
-  have tb : ∀ v b, toBytes32 v = .ok b → b.length = 32 := by
+  have tb : ∀ v b, Sec.toBytes32 v = .ok b → b.length = 32 := by
     intro v b hv
-    unfold toBytes32 at hv
+    unfold Sec.toBytes32 at hv
     split at hv
     · cases hv
-    · split at hv
-      · cases hv
-      · rename_i bb hb
-        cases hv
-        unfold beBytes? at hb
-        split at hb
-        · cases hb; simp
-        · cases hb
-  split at h
-  · cases h
-  · rename_i xs hx
-    have hxl := tb _ _ hx
-    split at h
-    · rename_i hc
-      cases h
-      have hp : fmod y 2 = 0 ∨ fmod y 2 = 1 := by
-        unfold fmod; have := Int.fmod_nonneg_of_pos y (show (0:Int) < 2 by omega)
-        have := Int.fmod_lt_of_pos y (show (0:Int) < 2 by omega); omega
-      rcases hp with hp | hp <;> simp [hp, isCompressedOrUncompressedPubKey, isCompressedPubKey, hxl]
-    · rename_i hc
-      split at h
-      · cases h
-      · rename_i ys hy
-        have hyl := tb _ _ hy
-        cases h
-        simp [isCompressedOrUncompressedPubKey, hxl, hyl, hc]
+    · cases hv; simp
+  cases hp : Sec.publicPairToSec x y c with
+  | error e => rw [hp] at h; cases h
+  | ok b =>
+    rw [hp] at h
+    cases h
+    unfold Sec.publicPairToSec at hp
+    split at hp
+    · cases hp
+    · rename_i xs hx
+      have hxl := tb _ _ hx
+      split at hp
+      · rename_i hc
+        cases hp
+        have hp2 : fmod y 2 = 0 ∨ fmod y 2 = 1 := by
+          unfold fmod; have := Int.fmod_nonneg_of_pos y (show (0:Int) < 2 by omega)
+          have := Int.fmod_lt_of_pos y (show (0:Int) < 2 by omega); omega
+        rcases hp2 with hp2 | hp2 <;> simp [hp2, isCompressedOrUncompressedPubKey, isCompressedPubKey, hxl]
+      · rename_i hc
+        split at hp
+        · cases hp
+        · rename_i ys hy
+          have hyl := tb _ _ hy
+          cases hp
+          simp [isCompressedOrUncompressedPubKey, hxl, hyl, hc]
 
 end Pycoin.Sign
